@@ -750,6 +750,48 @@ pub fn edit_storms(ctx: &Ctx, want: &str) -> Report {
     })
 }
 
+/// the very first conversion of an instance, after edit calls that leave the scale chromatic or sparse, swept in
+/// 0.5 mV steps over the bottom and the top of the range (a placeholder cached note must never act as history)
+pub fn first_conversions(ctx: &Ctx, want: &str) -> Report {
+    let small = ctx.tier == Tier::Small;
+    let preludes: Vec<Vec<Op>> = vec![
+        vec![],
+        vec![Op::Allow(vec![0])],
+        vec![Op::Allow(vec![])],
+        vec![Op::Allow((0..12).collect())],
+        vec![Op::Forbid(vec![])],
+        vec![Op::Forbid(vec![0]), Op::Allow(vec![0])],
+        vec![Op::Forbid(vec![5]), Op::Allow(vec![5, 0])],
+        vec![Op::Forbid(vec![0])],
+        vec![Op::Forbid(vec![0, 1]), Op::Allow(vec![1])],
+        vec![Op::Forbid((0..12).collect()), Op::Allow(vec![0, 4, 7])],
+        vec![Op::Forbid(vec![11]), Op::Allow(vec![11]), Op::Forbid(vec![0])],
+        vec![Op::EditStorm(0, 3, 7), Op::Allow(vec![3])],
+    ];
+    par_shards(ctx, preludes.len(), |j| {
+        let mut rep = Report::new();
+        let pre = &preludes[j];
+        let step = if small { 0.02 } else { 0.0005 };
+        let mut spans: Vec<(f64, f64)> = vec![(-0.02, 0.30), (0.95, 1.12), (9.85, 10.12)];
+        if small {
+            spans.truncate(1);
+        }
+        for (lo, hi) in spans {
+            let mut v = lo;
+            while v <= hi {
+                let mut ops = pre.clone();
+                ops.push(Op::Convert(v as f32));
+                ops.push(Op::Convert((v + 0.003) as f32));
+                let h = History { ops };
+                run_and_record(&h, want, &mut rep, false);
+                rep.count("quant.first_conversion_histories", 1);
+                v += step;
+            }
+        }
+        rep
+    })
+}
+
 pub fn random(ctx: &Ctx, want: &str) -> Report {
     let n_hist = ctx.budget(10, 40_000, 4_000_000) as usize;
     let shards = if ctx.tier == Tier::Small { 1 } else { 64 };
@@ -1114,6 +1156,8 @@ pub fn run(ctx: &Ctx, prop: &str) -> Report {
     stage("quant.directed_forbid_cached_note", directed_forbid_cached(ctx, prop), &mut rep, t);
     let t = std::time::Instant::now();
     stage("quant.sequences", sequences(ctx, prop), &mut rep, t);
+    let t = std::time::Instant::now();
+    stage("quant.first_conversions_after_edits", first_conversions(ctx, prop), &mut rep, t);
     let t = std::time::Instant::now();
     stage("quant.random_histories", random(ctx, prop), &mut rep, t);
     let t = std::time::Instant::now();
